@@ -11,6 +11,7 @@ require (
 )
 
 require (
+	github.com/stretchr/testify v1.10.0 // indirect
 	golang.org/x/mod v0.24.0 // indirect
 	golang.org/x/sync v0.12.0 // indirect
 )
